@@ -14,6 +14,14 @@
 (* (added, reserved only, deleted), cross-unit references in both directions, *)
 (* sibling flags, delete_child, set replacing an attribute, delete.           *)
 (*                                                                            *)
+(* Mode "wide": a directed family of wide units - a root with 21, 24 or 40    *)
+(* children that carry identity names, DW_TAG_base_type children at the       *)
+(* front / middle / last / several non-adjacent positions, references between *)
+(* them and from a second unit.  Expected order after reorder_base_types:     *)
+(* the base types in their original relative order, then all other children   *)
+(* in their original order (an unstable or partial reordering only shows      *)
+(* beyond ~20 children).                                                      *)
+(*                                                                            *)
 (* Every final state: the spec's size table is checked against its emit table *)
 (* (Size = Len(Emit)), the layout is checked for self-consistency, and one    *)
 (* replay case is emitted with the expected read-back or the expected error.  *)
@@ -171,6 +179,38 @@ Bad3Next ==
                calls |-> Skeleton(probe, "B", FALSE), be |-> FALSE, probe |-> "asz3"]
 
 -----------------------------------------------------------------------------
+(* Mode "wide" *)
+ChildName(i) == <<99, 48 + (i \div 10), 48 + (i % 10)>>          \* "c07"
+WidePatterns(n) == { {1}, {n \div 2}, {n}, {3, n - 2}, {2, n \div 2, n}, {1, 2, n - 1}, {n - 1, n}, {5, 6, 13, 20} }
+RECURSIVE WideAdds(_, _, _)
+WideAdds(n, bases, i) ==
+    IF i > n THEN <<>>
+    ELSE <<AddCall(1, 1, IF i \in bases THEN "DW_TAG_base_type"
+                        ELSE IF i % 3 = 0 THEN "DW_TAG_structure_type" ELSE "DW_TAG_variable"),
+           SetCall(1, i + 1, "DW_AT_name", [k |-> "String", s |-> ChildName(i)])>> \o WideAdds(n, bases, i + 1)
+(* child i is entry i + 1 of unit 1 *)
+WideScript(n, bases) ==
+    LET b1 == CHOOSE x \in bases : \A y \in bases : x <= y
+        bl == CHOOSE x \in bases : \A y \in bases : y <= x
+        nb == CHOOSE x \in 1..n : x \notin bases IN
+    WideAdds(n, bases, 1)
+    \o <<AddCall(1, nb + 1, "DW_TAG_member"),                                        \* a grandchild keeps its parent
+         SetCall(1, nb + 1, "DW_AT_type", [k |-> "UnitRef", e |-> bl + 1]),          \* to the last base type
+         SetCall(1, n + 1, "DW_AT_type", [k |-> "UnitRef", e |-> 2]),                \* last child -> first child
+         SetCall(1, b1 + 1, "DW_AT_byte_size", [k |-> "Udata", v |-> N(b1)]),
+         SetCall(1, n + 2, "DW_AT_type", [k |-> "UnitRef", e |-> b1 + 1]),           \* the grandchild -> first base type
+         AddCall(2, 1, "DW_TAG_variable"),
+         SetCall(2, 2, "DW_AT_type", [k |-> "DebugInfoRef", u |-> 1, e |-> bl + 1]),
+         SetCall(1, 2, "DW_AT_import", [k |-> "DebugInfoRef", u |-> 2, e |-> 2])>>
+WideNext ==
+    /\ c.stage = 0
+    /\ \E n \in {21, 24, 40} : \E bases \in WidePatterns(n) :
+         LET v == <<4, 5, 2, 3>>[((n + Cardinality(bases) + Salt) % 4) + 1]
+             w == IF (n + Salt + Cardinality(bases)) % 2 = 0 THEN 4 ELSE 8 IN
+         c' = [stage |-> 1, encs |-> <<Enc(v, w, 8), Enc(5, 12 - w, 4)>>, calls |-> WideScript(n, bases),
+               be |-> (n + Cardinality(bases) + Salt) % 3 = 0, probe |-> "wide"]
+
+-----------------------------------------------------------------------------
 (* Mode "builder": c = [stage, encs, calls, ns (structure calls), nm (modifier calls), last] *)
 BEncs == LET v == <<4, 5, 2, 3>>[(Salt % 4) + 1]  w == IF Salt % 2 = 0 THEN 4 ELSE 8 IN
          <<Enc(v, w, 8), Enc(<<5, 3, 4, 2>>[(Salt % 4) + 1], 12 - w, 4)>>
@@ -224,14 +264,16 @@ SetUnits == /\ c.stage = 0 /\ c.phase = "S" /\ c.ns = 0 /\ c.nu < MaxUnits
             /\ c' = [c EXCEPT !.nu = @ + 1]
 
 Init == c = IF Mode = "kinds" THEN [stage |-> -1]
+            ELSE IF Mode = "wide" THEN [stage |-> 0]
             ELSE [stage |-> 0, phase |-> "S", calls |-> <<>>, ns |-> 0, nm |-> 0, nu |-> 1]
 Next == IF Mode = "kinds" THEN KindsFan \/ KindsNext \/ BadNext \/ Bad3Next
+        ELSE IF Mode = "wide" THEN WideNext
         ELSE StructNext \/ ToMods \/ ModNext \/ BuilderFinish \/ SetUnits
 
 -----------------------------------------------------------------------------
 (* design-level checks on the final model state *)
 AllAttrs(D) == UNION {UNION {Range(D.units[u].ents[e].attrs) : e \in 1..Len(D.units[u].ents)} : u \in 1..Len(D.units)}
-DummyCx(D) == [defer |-> FALSE, unitoff |-> [e \in 1..8 |-> N(77)], infooff |-> [v \in 1..2 |-> [e \in 1..8 |-> N(300)]],
+DummyCx(D) == [defer |-> FALSE, unitoff |-> [e \in 1..64 |-> N(77)], infooff |-> [v \in 1..2 |-> [e \in 1..64 |-> N(300)]],
                stroff |-> [s \in Range(D.strs) |-> 3], lstroff |-> [s \in Range(D.lstrs) |-> 4], lineprog |-> TRUE]
 SizeLemma(D) == \A u \in 1..Len(D.units) : \A e \in 1..Len(D.units[u].ents) :
                   \A a \in Range(D.units[u].ents[e].attrs) : SizeIsEmitLen(a.val, D.units[u].enc, DummyCx(D))
@@ -258,7 +300,7 @@ RECURSIVE HashCalls(_, _, _)
 HashCalls(calls, i, h) == IF i > Len(calls) THEN h ELSE HashCalls(calls, i + 1, (h * 31 + CallCode(calls[i])) % 9973)
 Emit1(s) == HashCalls(s.calls, 1, Salt) % EmitMod = 0
 
-Inv == (c.stage = 1 /\ (Mode = "kinds" \/ Emit1(c))) =>
+Inv == (c.stage = 1 /\ (Mode \in {"kinds", "wide"} \/ Emit1(c))) =>
        LET D == Normalise(Apply(Start(c.encs), c.calls, 1))
            res == WriteResult(D, c.be) IN
        /\ SizeLemma(D)
